@@ -289,29 +289,36 @@ def rule_frame(repo: Repo) -> RuleResult:
 
     ok = True
     why = ""
-    dom = C.dominators(g)
+    # the equality tests between the ground text of a state fact and that of the effect, wherever they are; the removal must be
+    # executed only when one of them held (decided by valuation: flags, sentinels and early exits in between are followed)
+    tests: Dict[int, Tuple[ast.Compare, set]] = {}
+    for cmp_ in ast.walk(f.node):
+        if isinstance(cmp_, ast.Compare) and len(cmp_.ops) == 1 and isinstance(cmp_.ops[0], (ast.Eq, ast.NotEq)):
+            try:
+                (ka, pa), (kb, pb) = text_of(cmp_.left), text_of(cmp_.comparators[0])
+            except KeyError:
+                continue
+            if {ka, kb} == {"effect", "fact"}:
+                tests[id(cmp_)] = (cmp_, pa if ka == "fact" else pb)
+
+    def matcher(e):
+        if id(e) in tests:
+            return "same" if isinstance(e.ops[0], ast.Eq) else "!same"
+        return None
+
+    G = L.Guards(f, matcher)
+    seen_eq, seen_ne = G.reach({"same": True}), G.reach({"same": False})
     for d in discards:
         dn = g.node_containing(d)
-        guards = []
-        for n in dom[dn]:
-            st = g.stmt[n]
-            if isinstance(st, ast.If):
-                for cmp_ in ast.walk(st.test):
-                    if isinstance(cmp_, ast.Compare) and len(cmp_.ops) == 1 and isinstance(cmp_.ops[0], (ast.Eq, ast.NotEq)):
-                        (ka, pa), (kb, pb) = text_of(cmp_.left), text_of(cmp_.comparators[0])
-                        if {ka, kb} == {"effect", "fact"}:
-                            guards.append((n, cmp_, pa if ka == "fact" else pb))
-        if not guards:
-            ok, why = False, "no dominating equality of the ground texts of the state fact and of the effect"
+        if not tests:
+            ok, why = False, "no equality test of the ground texts of the state fact and of the effect"
             continue
-        n, cmp_, fact_paths = guards[-1]
-        eq = isinstance(cmp_.ops[0], ast.Eq)
-        seen_eq = C.reach_under(g, lambda e, c=cmp_: eq if e is c else None, start=n)
-        seen_ne = C.reach_under(g, lambda e, c=cmp_: (not eq) if e is c else None, start=n)
+        fact_paths = set().union(*[fp for _c, fp in tests.values()])
         if not (dn in seen_eq and dn not in seen_ne):
-            ok, why = False, "the removal is not confined to the branch where the texts are equal"
+            ok, why = False, "the removal is not confined to the case where the texts are equal"
         arg = d.args[0] if d.args else None
-        if arg is None or set(p.trace(arg)) != set(fact_paths):
+        removed = {x for x in p.trace(arg)} - {("const:None",)} if arg is not None else set()     # discarding None removes nothing
+        if arg is None or removed != set(fact_paths):
             ok, why = False, f"the removed element {unparse(arg) if arg is not None else None} is not the fact that was compared"
         recv_key = [x for x in p.trace(d.func.value, keys=True) if "askey" in x]
         if not any("attr:lifted_untyped_representation" in x for x in recv_key):
